@@ -53,6 +53,7 @@ Cat64 == CatRot({0, 1, 2, 3})
 \* the inactive / both-sides / zero-order shapes only (for the wide configurations)
 CatSpecial == { Inst(Shapes[i], r) : i \in 7..16, r \in {0, 1} }
 Cat8 == { Inst(Shapes[i], 0) : i \in {2, 3, 7, 9, 10, 11, 14, 15} }
+Cat6 == { Inst(Shapes[i], 0) : i \in {3, 7, 9, 10, 11, 14} }
 CatHalfW == { Inst(Shapes[i], r) : i \in 17..19, r \in {0, 1, 2, 3} } \cup Cat8
 
 K3 == <<Q(11), Q(13), Q(17)>>
@@ -70,6 +71,7 @@ KZ == <<Q(11), Q(0), Q(17)>>
 \* perfect squares of the primes: c^(1/2) stays exact
 PSq == [s \in AllSpecies |-> CASE s = "A" -> Q(4) [] s = "B" -> Q(9) [] s = "C" -> Q(25) [] s = "D" -> Q(49)]
 PtsSq == {PSq}
+Pts13 == {P1, P3}
 Pts1 == {P1}
 Pts2 == {P1, P2}
 Pts3 == {P1, P2, P3}
@@ -106,6 +108,8 @@ NoFeeds == {}
 
 OrdOne == { <<"C", "A", "D", "B">> }
 OrdTwo == { <<"C", "A", "D", "B">>, <<"A", "B", "C", "D">> }
+OrdSome == { <<"C", "A", "D", "B">>, <<"A", "B", "C", "D">>, <<"D", "C", "B", "A">>, <<"B", "D", "A", "C">>,
+             <<"A", "C", "B", "D">>, <<"D", "A", "B", "C">> }
 OrdAll == { o \in [1..4 -> AllSpecies] : \A i, j \in 1..4 : i # j => o[i] # o[j] }
 
 ASSUME \A r \in Cat64 \cup CatHalf : IsShape(r)
